@@ -697,8 +697,13 @@ Fixpoint rty_eqb (a b : rty) : bool :=
   end.
 
 (* stringlike::from_str / collections::from_str on the spellings the rule tests *)
-Definition is_frozenstr_name (s : string) : bool := String.eqb s "frozenstr" || String.eqb s "FrozenStr".
-Definition is_frozenbytes_name (s : string) : bool := String.eqb s "frozenbytes" || String.eqb s "FrozenBytes".
+(* stringlike::from_str compares with eq_ignore_ascii_case (collections::from_str is case-sensitive) *)
+Definition lower_ascii (c : ascii) : ascii :=
+  let n := nat_of_ascii c in if (Nat.leb 65 n && Nat.leb n 90)%bool then ascii_of_nat (n + 32) else c.
+Fixpoint lower_string (s : string) : string :=
+  match s with EmptyString => EmptyString | String c r => String (lower_ascii c) (lower_string r) end.
+Definition is_frozenstr_name (s : string) : bool := String.eqb (lower_string s) "frozenstr".
+Definition is_frozenbytes_name (s : string) : bool := String.eqb (lower_string s) "frozenbytes".
 Definition is_frozenlist_name (s : string) : bool := String.eqb s "FrozenList" || String.eqb s "frozenlist".
 Definition is_frozenset_name (s : string) : bool := String.eqb s "FrozenSet" || String.eqb s "frozenset".
 Definition is_frozendict_name (s : string) : bool := String.eqb s "FrozenDict" || String.eqb s "frozendict".
@@ -826,3 +831,106 @@ Definition render_select (nt : newtype) : list Z :=
   match select_newtype_checked_ctor nt with Some h => 1 :: codes h | None => [0] end.
 
 Definition b2z (b : bool) : Z := if b then 1 else 0.
+
+(* ------------------------------------------------------------------ coverage instrument
+   Which arms of the model a generated project exercises (used only for coverage["model_arm_hits"];
+   it follows the decision structure of lower_expr / lower_decl / select_newtype_checked_ctor with the
+   same predicates and is not mentioned by any theorem).
+   1 EIdent  2 ELit  3 EParen  4 EYield  5 ENode  6 EBlock  7 call, callee not an identifier
+   8 call of an identifier not detected as constructor  9 rewrite to the checked construction
+   10 raw constructor: inside the newtype's own impl  11 raw constructor: no hook for the name
+   12 raw constructor: hooked, but not exactly one positional argument  13 SNode  14 SFail
+   20 newtype without methods  21 newtype with methods  22 model/class  23 model/class whose defaults fail
+   24 function  25 function that fails to lower  26 const  27 other declaration  28 method list that fails
+   30 from_underlying among the candidates  31 single candidate  32 no candidate  33 several candidates, none chosen
+   34 method rejected: receiver  35 rejected: name prefix  36 rejected: parameter list / type  37 rejected: return type
+   38 method accepted as candidate *)
+Fixpoint arms_expr (st : lstate) (e : expr) : list Z :=
+  let many := fix go (l : list expr) : list Z :=
+    match l with [] => [] | x :: r => arms_expr st x ++ go r end in
+  match e with
+  | EIdent _ => [1]
+  | ELit _ => [2]
+  | EParen e1 => 3 :: arms_expr st e1
+  | EYield _ => [4]
+  | ENode _ subs => 5 :: many subs
+  | EBlock ss =>
+      6 :: (fix gos (l : list stmt) : list Z :=
+              match l with
+              | [] => []
+              | SNode _ subs :: r => 13 :: many subs ++ gos r
+              | SFail :: r => 14 :: gos r
+              end) ss
+  | ECall f names args =>
+      match f with
+      | EIdent name =>
+          if ctor_detected st name then
+            if rewrite_applies st name names args then 9 :: many args
+            else match lookup name (hooks st) with
+                 | None => 11 :: many args
+                 | Some _ =>
+                     match names, args with
+                     | [None], [_] => 10 :: many args
+                     | _, _ => 12 :: many args
+                     end
+                 end
+          else 8 :: many args
+      | _ => 7 :: arms_expr st f ++ many args
+      end
+  end.
+
+Definition arms_stmts (st : lstate) (ss : list stmt) : list Z :=
+  flat_map (fun s => match s with SNode _ subs => 13 :: flat_map (arms_expr st) subs | SFail => [14] end) ss.
+
+Definition arms_methods (st : lstate) (ms : list method) : list Z :=
+  (match lower_methods st ms with Some _ => [] | None => [28] end) ++ flat_map (fun m => arms_stmts st (m_body m)) ms.
+
+Definition arms_select (nt : newtype) : list Z :=
+  let cands := filter (is_candidate nt) (nt_methods nt) in
+  (match find (fun m => String.eqb (m_name m) from_underlying_name) cands with
+   | Some _ => 30
+   | None => match cands with [_] => 31 | [] => 32 | _ => 33 end
+   end) ::
+  map (fun m =>
+         if m_recv m then 34
+         else if negb (String.prefix "from_" (m_name m)) then 35
+         else if negb (matches_underlying_param m (nt_under nt)) then 36
+         else if negb (is_result_of_newtype (m_ret m) (nt_name nt)) then 37 else 38) (nt_methods nt).
+
+Definition arms_decl (st : lstate) (d : decl) : list Z :=
+  match d with
+  | DNewtype nt =>
+      arms_select nt ++
+      match nt_methods nt with
+      | [] => [20]
+      | ms => 21 :: arms_methods (set_cur (add_struct st (nt_name nt)) (Some (nt_name nt))) ms
+      end
+  | DModel name defaults methods tmethods =>
+      match lower_list st defaults with
+      | None => [23]
+      | Some _ =>
+          22 :: flat_map (arms_expr st) defaults ++
+          arms_methods (set_cur (add_struct st name) (Some name)) methods ++
+          arms_methods (add_struct st name) tmethods
+      end
+  | DFunction _ body =>
+      (match lower_stmts st body with Some _ => 24 | None => 25 end) :: arms_stmts st body
+  | DConst _ v => 26 :: arms_expr st v
+  | DOther => [27]
+  end.
+
+Fixpoint arms_decls (st : lstate) (ds : list decl) : list Z :=
+  match ds with
+  | [] => []
+  | d :: r => arms_decl st d ++ arms_decls (fst (fst (lower_decl st d))) r
+  end.
+
+Definition arms_program (ds : list decl) : list Z :=
+  arms_decls {| hooks := collect_hooks ds []; structs := []; cur := None |} ds.
+
+(* histogram over the arm ids 1..38, so that the result stays small *)
+Definition arm_ids : list Z :=
+  [1;2;3;4;5;6;7;8;9;10;11;12;13;14;20;21;22;23;24;25;26;27;28;30;31;32;33;34;35;36;37;38].
+Definition arms_project (modules : list (list decl)) : list (Z * Z) :=
+  let all := flat_map arms_program modules in
+  map (fun a => (a, Z.of_nat (length (filter (Z.eqb a) all)))) arm_ids.
